@@ -26,9 +26,9 @@ void setup_newline_add(Chunk *prev, Chunk *nl, Chunk *next)
 {
    LOG_FUNC_ENTRY();
 
+   // 'next' is the null chunk when the newline is added at the end of the file
    if (  prev->IsNullChunk()
-      || nl->IsNullChunk()
-      || next->IsNullChunk())
+      || nl->IsNullChunk())
    {
       return;
    }
